@@ -297,8 +297,9 @@ class Item:
                 for u in f.ty.walk():
                     if u.kind == "user" and any(t.users() for t in u.item.param_default_tys.values()):
                         t.append("k:splice-generic-with-default")
-            if f.flatten and f.ty.kind == "user":
-                tgt = f.ty.item
+            fty = f.ty.args[0] if f.ty.kind == "box" else f.ty
+            if f.flatten and fty.kind == "user":
+                tgt = fty.item
                 if tgt.kind == "named" and not tgt.fields and tgt.tag is None:
                     t.append("k:flatten-empty-struct")
                 if tgt.kind == "enum":
@@ -497,6 +498,7 @@ class Profile:
     weird_renames: bool = True
     p_attr: float = 0.35
     string_keys_only: bool = False   # C02: serde's buffered deserializers cannot parse non-string map keys
+    no_char: bool = False            # C02: a tag literal that moves into a `string` position must fit every Rust leaf behind it
     weird_idents: bool = False       # C09: identifiers that do not follow Rust naming conventions
     p_rename_all: float = None
     placements: bool = False         # C03/C04/C11/C13: #[ts(export_to = ..)] placements, cycles, parameter defaults
@@ -555,7 +557,10 @@ class Gen:
             return prim(self.r.choice(INT_PRIMS))
         if r < 0.57 and self.p.big_ints:
             return prim(self.r.choice(BIG_PRIMS))
-        return prim(self.r.choice(OTHER_PRIMS))
+        p = self.r.choice(OTHER_PRIMS)
+        if p == "char" and self.p.no_char:
+            p = "String"
+        return prim(p)
 
     def key_type(self):
         cands = [i for i in self.items if i.keyable]
@@ -644,6 +649,8 @@ class Gen:
         t = self.user_ref(params, allow_recursive=False, pred=ok)
         if t is not None:
             used |= flat_closure(t.item)
+            if self.r.random() < 0.2:
+                t = Ty("box", args=[t])     # serde flattens through Box; the binding must too
         return t
 
     def inlineable(self, t: Ty):
